@@ -998,6 +998,8 @@ func structuralFor(p *Program, id string) []sob {
 				out = append(out, o)
 			}
 		}
+		// a stack overflow cannot be recovered: every recursive cycle of the library must be bounded
+		out = append(out, p.recursionObligations()...)
 		return out
 	case "C09":
 		return p.pollObligations()
